@@ -35,8 +35,11 @@ def unescapeLit : List Char → Bool → List Char
   | [], _ => []
   | c :: cs, esc => if c == '\\' && !esc then unescapeLit cs true else c :: unescapeLit cs false
 
-def escapeChars (cs : List Char) : List Char :=
-  cs.flatMap fun c => if c == '"' || c == '\\' then ['\\', c] else [c]
+def escChar (c : Char) : List Char := if c == '"' || c == '\\' then ['\\', c] else [c]
+
+def escapeChars : List Char → List Char
+  | [] => []
+  | c :: cs => escChar c ++ escapeChars cs
 
 /-- the lexer's string scanning after the opening quote: raw content up to the first unescaped `"`;
     a backslash escapes any next character; a line break or the end of input is an error -/
